@@ -156,7 +156,8 @@ def decide_table(name, variant, bc, compat, out, budget):
 
 
 def check_program(args):
-    name, src, seed, budget_s, exprs = args
+    name, src, seed, budget_s, exprs = args[:5]
+    other_src = args[5] if len(args) > 5 and args[5] else OTHER
     out = {"name": name, "source": src, "compiled": False, "variants": 0, "tested_types": 0, "skipped_types": 0,
            "goals": 0, "ok": 0, "fail": [], "inconclusive": [], "queries": 0, "solver_s": 0.0, "budget_exhausted": 0,
            "vm_validated": 0, "samples": []}
@@ -172,7 +173,7 @@ def check_program(args):
             variants.append(("tree_shaken", ts["bytecode"], ts["compat"]))
         else:
             out["inconclusive"].append("%s: tree_shake failed" % name)
-        oc = qv.compile(OTHER, dump=False)
+        oc = qv.compile(other_src, dump=False)
         if oc.get("ok"):
             mg = qv.req(op="merge", hs=[oc["h"], c["h"]])
             if mg.get("ok"):
@@ -275,7 +276,16 @@ def main():
     from checks.c10 import gen_functions
     corpus += [(n, s) for n, s in gen_functions() if "/partial" in n]
     budget_s = 20 if tier == "quick" else 90
-    jobs = [(n, s, rep.seed, budget_s, ex) for n, s, ex in gen] + [(n, s, rep.seed, budget_s, None) for n, s in corpus]
+    # the merged variant of a generated program is merged after a sibling that shares one of its
+    # two type expressions: functions of the shared type are deduplicated onto the earlier
+    # program's ids while the other expression brings new tuple types, so the rows of functions
+    # the executor already holds have to grow
+    rnd = random.Random(rep.seed)
+    allgen = [(n, s, (e1, e2)) for n, s, e1, e2 in gen_type_programs()]
+    def sibling(ex):
+        sibs = [s2 for _n2, s2, ex2 in allgen if ex2 != ex and (ex2[0] in ex or ex2[1] in ex)]
+        return rnd.choice(sibs) if sibs else None
+    jobs = [(n, s, rep.seed, budget_s, ex, sibling(ex)) for n, s, ex in gen] + [(n, s, rep.seed, budget_s, None) for n, s in corpus]
     with mp.Pool(16) as pool:
         results = pool.map(check_program, jobs, chunksize=2)
     progs = 0
